@@ -7,7 +7,10 @@ import miros.hsm as hsm
 
 # handler scripts of the single-state chart: signal -> actions performed during the step
 SCRIPT = {"A": [], "B": [("post_fifo", "A")], "C": [("post_lifo", "A")], "D": [("defer", "D")], "E": [("recall",)],
-          "F": [("post_lifo", "B"), ("post_fifo", "C")]}
+          "F": [("post_lifo", "B"), ("post_fifo", "C")],
+          # a handler that fails: the exception belongs to the caller of next_rtc/complete_circuit, the event is consumed,
+          # whatever is still queued stays queued
+          "G": [("post_fifo", "A"), ("raise", "IndexError")], "H": [("raise", "RuntimeError")]}
 
 
 def make_chart(family):
@@ -30,6 +33,17 @@ def apply_impl(t, h, op):
     n0 = len(t.log)
     kind = op[0]
     ret = None
+    try:
+        ret = _apply_impl(h, op)
+    except (IndexError, RuntimeError) as e:
+        ret = "raised " + type(e).__name__
+    disp = [x[0] for x in t.log[n0:] if x[0] in SCRIPT]
+    return {"ret": ret, "dispatched": disp, "queue": names(h.queue), "deferred": names(h.defer_queue)}
+
+
+def _apply_impl(h, op):
+    kind = op[0]
+    ret = None
     if kind == "post_fifo":
         h.post_fifo(ev(op[1]))
     elif kind == "post_lifo":
@@ -43,8 +57,7 @@ def apply_impl(t, h, op):
         ret = h.next_rtc()
     elif kind == "complete_circuit":
         h.complete_circuit()
-    disp = [x[0] for x in t.log[n0:] if x[0] in SCRIPT]
-    return {"ret": ret, "dispatched": disp, "queue": names(h.queue), "deferred": names(h.defer_queue)}
+    return ret
 
 
 def ref_step(q, dq, disp):
@@ -60,11 +73,27 @@ def ref_step(q, dq, disp):
         elif a[0] == "recall":
             if dq:
                 q.append(dq.pop(0))
+        elif a[0] == "raise":
+            raise RefRaise(a[1])
+
+
+class RefRaise(Exception):
+    pass
 
 
 def apply_ref(q, dq, op):
     kind = op[0]
     ret, disp = None, []
+    try:
+        ret = _apply_ref(q, dq, op, disp)
+    except RefRaise as e:
+        ret = "raised " + e.args[0]
+    return {"ret": ret, "dispatched": disp, "queue": list(q), "deferred": list(dq)}
+
+
+def _apply_ref(q, dq, op, disp):
+    kind = op[0]
+    ret = None
     if kind == "post_fifo":
         q.append(op[1])
     elif kind == "post_lifo":
@@ -87,7 +116,7 @@ def apply_ref(q, dq, op):
             ref_step(q, dq, disp)
             n += 1
             assert n < 1000
-    return {"ret": ret, "dispatched": disp, "queue": list(q), "deferred": list(dq)}
+    return ret
 
 
 def bfs(pid, alphabet, depth, family, first_ops):
